@@ -1384,13 +1384,19 @@ class NetCDFWrite(IOWrite):
             if not bounds_groups and coord_groups:
                 ncvar = coord_groups + ncvar
 
-            # Note that, in a field, bounds always have equal units to
-            # their parent coordinate
-
-            # Select properties to omit
+            # Select properties to omit: Those which the bounds
+            # inherit from their parent coordinate. A property of the
+            # bounds that has a different value to the parent
+            # coordinate's is not inherited, so it must be written.
             omit = []
             for prop in g["omit_bounds_properties"]:
-                if self.implementation.has_property(coord, prop):
+                if self.implementation.has_property(coord, prop) and (
+                    not self.implementation.has_property(bounds, prop)
+                    or self.implementation.equal_properties(
+                        self.implementation.get_property(bounds, prop),
+                        self.implementation.get_property(coord, prop),
+                    )
+                ):
                     omit.append(prop)
 
             # Create the bounds netCDF variable
